@@ -135,6 +135,8 @@ def main(argv=None):
     jobs = []
     for idx, it in enumerate(items):
         opts = {"twin": idx % twin_every == 0, "validate": 2 if idx % val_every == 0 else 0, "profile": idx < 3}
+        if hasattr(mod, "item_opts"):
+            opts.update(mod.item_opts(it, a.tier) or {})
         jobs.append((prop_id, it, a.tier, seed, idx, opts))
     results = []
     if a.jobs <= 1 or n <= 1:
